@@ -8,17 +8,53 @@
     hashes to [[]], which makes the case fail.  The preimages the model asks for are built by the
     model (prefix byte, order of children), so a change of prefix or order in the code shows up
     as a mismatch.  [CHash] and [CSha] run the real [Lib.Sha256.sha256] on small inputs. *)
-From Coq Require Import List Bool NArith ZArith.
+From Coq Require Import List Bool NArith ZArith FMapPositive.
+From Coq Require Export Uint63.
 Import ListNotations.
 From Ont Require Export Lib.Bytes Lib.CorrLib Lib.Sha256 Model.Codec Model.MerklePath.
 Local Open Scope N_scope.
 Open Scope bool_scope.
+
+(** Byte strings in cases.v are written [B len words]: 7 bytes per primitive 63-bit integer,
+    little-endian (N literals cost ~100 us each to elaborate, primitive integers do not). *)
+Fixpoint int_to_N (k : nat) (w : int) : N :=
+  match k with
+  | O => 0
+  | S k' => let r := int_to_N k' (Uint63.lsr w 1) in
+            if Uint63.eqb (Uint63.land w 1) 0 then N.double r else N.succ_double r
+  end.
+Fixpoint unpack_word (cnt : nat) (w : int) : bytes :=
+  match cnt with
+  | O => []
+  | S c => int_to_N 8 (Uint63.land w 255) :: unpack_word c (Uint63.lsr w 8)
+  end.
+Fixpoint unpack (len : nat) (ws : list int) : bytes :=
+  match ws with
+  | [] => []
+  | w :: r => if (len <=? 7)%nat then unpack_word len w else unpack_word 7 w ++ unpack (len - 7) r
+  end.
+Definition B (len : int) (ws : list int) : bytes := unpack (N.to_nat (int_to_N 40 len)) ws.
 
 Fixpoint tbl_hash (tbl : list (bytes * bytes)) (x : bytes) : bytes :=
   match tbl with
   | [] => []
   | (k, v) :: r => if bytes_eqb k x then v else tbl_hash r x
   end.
+
+(** The same table behind a 24-bit fingerprint trie (bytes 1..3 of the preimage), so that a lookup
+    does not scan the whole list. *)
+Definition fp (x : bytes) : positive :=
+  match x with
+  | _ :: a :: b :: c :: _ => N.succ_pos (a + 256 * (b + 256 * c))
+  | _ => 1%positive
+  end.
+Definition tbl_build (tbl : list (bytes * bytes)) : PositiveMap.t (list (bytes * bytes)) :=
+  fold_left (fun m kv =>
+               let p := fp (fst kv) in
+               PositiveMap.add p (kv :: match PositiveMap.find p m with Some l => l | None => [] end) m)
+            tbl (PositiveMap.empty _).
+Definition map_hash (m : PositiveMap.t (list (bytes * bytes))) (x : bytes) : bytes :=
+  match PositiveMap.find (fp x) m with Some l => tbl_hash l x | None => [] end.
 
 Definition lerr_eqb (a b : lerr) : bool :=
   match a, b with
@@ -75,7 +111,8 @@ Definition case_ok (c : case) : bool :=
       | None => (d <? 0)%Z
       end
   | CList tbl hs rfc levels items =>
-      let H := tbl_hash tbl in
+      let m := tbl_build tbl in
+      let H := map_hash m in
       bytes_eqb (rfc_root H hs) rfc
       && match hs with
          | [] => true
